@@ -30,8 +30,9 @@ pub fn run(ctx: &Ctx) -> Result<(), String> {
     let mut sched = SchedSummary::default();
     // part 1
     let plans: Vec<(usize, bool, usize, usize)> = ctx.tier.pick(
-        vec![(1, false, 1, 2), (2, false, 2, 1), (1, true, 1, 2)],
-        vec![(1, false, 3, 3), (1, true, 2, 3), (2, false, 2, 2), (2, true, 2, 2), (2, false, 3, 2), (4, false, 2, 1)],
+        // bound 64 = all interleavings at hook granularity
+        vec![(1, false, 1, 64), (1, true, 1, 2), (2, false, 2, 1)],
+        vec![(1, false, 2, 64), (1, true, 2, 64), (1, false, 3, 3), (2, false, 2, 3), (2, true, 2, 2), (2, false, 3, 2), (4, false, 2, 1)],
     ); // (N, stats, K, bound)
     for (n, stats, k, bound) in plans {
         for (si, sig) in [libc::SIGINT, libc::SIGTERM].into_iter().enumerate() {
@@ -52,7 +53,7 @@ pub fn run(ctx: &Ctx) -> Result<(), String> {
                     expect: Expect::CleanExit,
                     probe_at_end: false,
                 };
-                let s = explore(ctx, if stats { "client_stats on" } else { "client_stats off" }, &scn, &move |slot: &Slot| env_with_signal(slot, n, k, sig, pos), bound, ctx.tier.pick(600, 20000), Duration::from_secs(ctx.tier.pick(20, 240)))?;
+                let s = explore(ctx, if stats { "client_stats on" } else { "client_stats off" }, &scn, &move |slot: &Slot| env_with_signal(slot, n, k, sig, pos), bound, ctx.tier.pick(1500, 30000), Duration::from_secs(ctx.tier.pick(25, 400)))?;
                 sched.merge(s);
             }
         }
